@@ -54,7 +54,20 @@ CheckOK(o) ==
      /\ v = "no"   => /\ o.failed /\ Len(o.diags) >= 1
                       /\ \E i \in DOMAIN e : e[i].verdict = "no" /\ \E r \in Range(e[i].reasons) : ReasonShown(o, e[i], r)
 
-ObsOK(o) == IF o.cmd = "gen" THEN GenOK(o) ELSE IF o.cmd = "check" THEN CheckOK(o) ELSE FALSE
+\* show: the parsed listing equals what WireShow derives from the program
+GroupSet(gs) == {[inputs |-> Range(g.inputs), outputs |-> Range(g.outputs)] : g \in Range(gs)}
+ShowSets(ss) == {[id |-> s.id, includes |-> Range(s.includes), groups |-> GroupSet(s.groups)] : s \in Range(ss)}
+ShowOK(o) ==
+  LET e == Cases[o.ci].show IN
+  /\ ~o.panic /\ ~o.hang /\ ~o.wrote
+  /\ ShowSets(o.sets) = ShowSets(e.sets)
+  /\ Range(e.injectors) \subseteq Range(o.injectors)
+  /\ Range(o.injectors) \subseteq Range(e.injectors) \cup Range(e.free)
+  /\ (e.invalid # <<>> \/ e.rejected # <<>>) => o.failed
+  /\ (e.invalid = <<>> /\ e.rejected = <<>> /\ e.free = <<>>) => ~o.failed
+
+ObsOK(o) == IF o.cmd = "gen" THEN GenOK(o) ELSE IF o.cmd = "check" THEN CheckOK(o)
+            ELSE IF o.cmd = "show" THEN ShowOK(o) ELSE FALSE
 
 \* one line per rejected observation, then the completion marker
 ASSUME \A l \in DOMAIN Obs : ObsOK(Obs[l]) \/ PrintT(<<"BADOBS", l>>)
